@@ -1317,7 +1317,7 @@ class InBodyPhase(Phase):
             if self.tree.openElements[-1].name != "p":
                 self.parser.parseError("unexpected-end-tag", {"name": "p"})
             node = self.tree.openElements.pop()
-            while node.name != "p":
+            while node.nameTuple != (namespaces["html"], "p"):
                 node = self.tree.openElements.pop()
 
     def endTagBody(self, token):
@@ -1355,7 +1355,7 @@ class InBodyPhase(Phase):
             self.parser.parseError("end-tag-too-early", {"name": token["name"]})
         if inScope:
             node = self.tree.openElements.pop()
-            while node.name != token["name"]:
+            while node.nameTuple != (namespaces["html"], token["name"]):
                 node = self.tree.openElements.pop()
 
     def endTagForm(self, token):
@@ -1385,7 +1385,7 @@ class InBodyPhase(Phase):
                     "end-tag-too-early",
                     {"name": token["name"]})
             node = self.tree.openElements.pop()
-            while node.name != token["name"]:
+            while node.nameTuple != (namespaces["html"], token["name"]):
                 node = self.tree.openElements.pop()
 
     def endTagHeading(self, token):
@@ -1399,7 +1399,8 @@ class InBodyPhase(Phase):
         for item in headingElements:
             if self.tree.elementInScope(item):
                 item = self.tree.openElements.pop()
-                while item.name not in headingElements:
+                while (item.nameTuple[0] != namespaces["html"] or
+                       item.name not in headingElements):
                     item = self.tree.openElements.pop()
                 break
 
@@ -1577,7 +1578,7 @@ class InBodyPhase(Phase):
 
         if self.tree.elementInScope(token["name"]):
             element = self.tree.openElements.pop()
-            while element.name != token["name"]:
+            while element.nameTuple != (namespaces["html"], token["name"]):
                 element = self.tree.openElements.pop()
             self.tree.clearActiveFormattingElements()
 
@@ -1590,7 +1591,7 @@ class InBodyPhase(Phase):
 
     def endTagOther(self, token):
         for node in self.tree.openElements[::-1]:
-            if node.name == token["name"]:
+            if node.nameTuple == (namespaces["html"], token["name"]):
                 self.tree.generateImpliedEndTags(exclude=token["name"])
                 if self.tree.openElements[-1].name != token["name"]:
                     self.parser.parseError("unexpected-end-tag", {"name": token["name"]})
@@ -1826,7 +1827,7 @@ class InTablePhase(Phase):
                 self.parser.parseError("end-tag-too-early-named",
                                        {"gotName": "table",
                                         "expectedName": self.tree.openElements[-1].name})
-            while self.tree.openElements[-1].name != "table":
+            while self.tree.openElements[-1].nameTuple != (namespaces["html"], "table"):
                 self.tree.openElements.pop()
             self.tree.openElements.pop()
             self.parser.resetInsertionMode()
@@ -1947,7 +1948,7 @@ class InCaptionPhase(Phase):
                 self.parser.parseError("expected-one-end-tag-but-got-another",
                                        {"gotName": "caption",
                                         "expectedName": self.tree.openElements[-1].name})
-            while self.tree.openElements[-1].name != "caption":
+            while self.tree.openElements[-1].nameTuple != (namespaces["html"], "caption"):
                 self.tree.openElements.pop()
             self.tree.openElements.pop()
             self.tree.clearActiveFormattingElements()
@@ -2280,7 +2281,7 @@ class InCellPhase(Phase):
                                        {"name": token["name"]})
                 while True:
                     node = self.tree.openElements.pop()
-                    if node.name == token["name"]:
+                    if node.nameTuple == (namespaces["html"], token["name"]):
                         break
             else:
                 self.tree.openElements.pop()
@@ -2388,7 +2389,7 @@ class InSelectPhase(Phase):
     def endTagSelect(self, token):
         if self.tree.elementInScope("select", variant="select"):
             node = self.tree.openElements.pop()
-            while node.name != "select":
+            while node.nameTuple != (namespaces["html"], "select"):
                 node = self.tree.openElements.pop()
             self.parser.resetInsertionMode()
         else:
